@@ -630,6 +630,38 @@ static void iauth_xquery_password(struct iauth_request *req,
     }
 }
 
+/** Gives back the references \a req still holds on services: nobody
+ * will deliver their replies to it once the request is gone.
+ */
+static void iauth_xquery_release(struct iauth_request *req)
+{
+    struct iauth_xquery_client *cli;
+    struct iauth_xquery_service *srv;
+    void *ptr;
+    unsigned int ii;
+
+    ptr = &iauth_xquery;
+    cli = set_find(&req->data, &ptr);
+    if (!cli)
+        return;
+    for (ii = 0; ii < iauth_xquery_services.used; ++ii) {
+        srv = iauth_xquery_services.vec[ii];
+        if (!srv || !(cli->ref_mask & (1u << ii)))
+            continue;
+        cli->ref_mask &= ~(1u << ii);
+        --srv->refs;
+        if (cli->ref_mask == 0)
+            --req->soft_holds;
+        iauth_xquery_unref(ii);
+    }
+}
+
+static void iauth_xquery_registered(struct iauth_request *req, int from_ircd)
+{
+    iauth_xquery_release(req);
+    (void)from_ircd;
+}
+
 static void iauth_xquery_user_info(struct iauth_request *req)
 {
     iauth_xquery_check(req, IAUTH_GOT_USER_INFO);
@@ -642,6 +674,8 @@ static struct iauth_module iauth_xquery = {
     .get_stats = iauth_xquery_report_stats,
     .new_client = iauth_xquery_new_client,
     .password = iauth_xquery_password,
+    .disconnect = iauth_xquery_release,
+    .registered = iauth_xquery_registered,
     .user_info = iauth_xquery_user_info,
     .x_reply = iauth_xquery_x_reply,
     .x_unlinked = iauth_xquery_x_unlinked,
